@@ -180,6 +180,12 @@ def add(chk, fi):
         ts = rules.controlling_tests(view, n)
         ok = ("defaults is not None", "T") in ts and [norm(a) for a in c.args] == ["new_arr", "list(add_dtype.names)", "defaults"]
     chk.ob("R07.defaults", q + "::defaults-by-name", ok, fi.where(), "supplied defaults are written by name into the added fields of the new array, only when given")
+    # the defaults reach copy_fields_by_name as given (or wrapped in a list): an array conversion would coerce mixed-type defaults to one type
+    reb = [a for a in _assigns(fi.node) if norm(a.targets[0]) == "defaults"]
+    bad = [norm(a)[:70] for a in reb if not (isinstance(a.value, ast.List) and len(a.value.elts) == 1 and norm(a.value.elts[0]) == "defaults")
+           and not (isinstance(a.value, ast.Call) and call_name(a.value) in ("list", "tuple") and len(a.value.args) == 1 and norm(a.value.args[0]) == "defaults")]
+    chk.ob("R07.defaults", q + "::defaults-not-converted", not bad, fi.where(),
+           "the default values are applied one by one with their own types (only wrapped in a list, never converted to an array)%s" % ("" if not bad else ": `%s`" % bad[0]))
     # order: copy of old data before defaults
     cps = [(n, c) for n in cfg.nodes for c in rules.stmts_calls(n) if call_name(c) == "copy_fields"]
     if cb and cps:
@@ -251,6 +257,20 @@ def copiers(chk, repo):
             env.get(norm(body[0].test.comparators[0]), "") == "arr2.dtype.names" and norm(body[0].test.left) == v and isinstance(body[0].test.ops[0], ast.In) and \
             len(body[0].body) == 1 and norm(body[0].body[0]) == "arr2[%s] = arr1[%s]" % (v, v)
     chk.ob("R07.copier", q + "::assigns-every-common-name", ok, fi.where(), "copy_fields assigns arr2[name] = arr1[name] for every name of arr1 that arr2 also has")
+    # every write into the destination is by field name, and the by-name loop is on every normal path (no positional shortcut)
+    cfgc = rules.cfg_of(fi)
+    viewc = cfgc.view()
+    dst = fi.params[1]
+    stores = [n for n in cfgc.nodes if n.kind == "stmt" and isinstance(n.ast, (ast.Assign, ast.AugAssign))
+              and any(isinstance(t, ast.Subscript) and norm(t.value) == dst for t in (n.ast.targets if isinstance(n.ast, ast.Assign) else [n.ast.target]))]
+    byname = [n for n in stores if isinstance(n.ast, ast.Assign) and isinstance(n.ast.targets[0].slice, ast.Name) and isinstance(n.ast.value, ast.Subscript)
+              and norm(n.ast.value.slice) == norm(n.ast.targets[0].slice) and norm(n.ast.value.value) == fi.params[0]]
+    chk.ob("R07.copier", q + "::destination-written-by-name-only", bool(stores) and len(stores) == len(byname), fi.where(stores[0].ast) if stores else fi.where(),
+           "every store into the destination is `%s[name] = %s[name]` with one name (fields are matched by name, never by position): %s"
+           % (dst, fi.params[0], [norm(n.ast)[:60] for n in stores if n not in byname] or "ok"))
+    loopn = [n for n in cfgc.nodes if n.kind == "loop"]
+    chk.ob("R07.copier", q + "::by-name-loop-on-every-path", len(loopn) == 1 and viewc.dominates(loopn[0], cfgc.exit), fi.where(),
+           "every normal return passes through the by-name loop (no early return around it)")
     g = _raise_guards(fi)
     chk.ob("R07.reject", q + "::size-mismatch", any(("arr1.size != arr2.size", "T") in ts or ("arr1.shape != arr2.shape", "T") in ts for n, ts in g), fi.where(), "different sizes are rejected")
     fi = repo.func(NU + "copy_fields_by_name")
